@@ -76,3 +76,7 @@ Definition agrees (e: entry) : bool :=
 (* ... and the type satisfies the property: it needs nothing but "child / child output is Send" (resp. Sync), rustc's impl is positive *)
 Definition entry_ok (e: entry) : bool :=
   agrees e && negb (e_neg e) && only_children (e_send e) (needs (e_send e) (e_ty e)) && only_children (e_send e) (e_rustc e).
+
+(* every type of the crate (ordinals 0 .. n-1) has an entry for Send and an entry for Sync: nothing is left undecided *)
+Definition complete_b (n: nat) (tbl: list entry) : bool :=
+  forallb (fun i => existsb (fun e => Nat.eqb (e_id e) i && e_send e) tbl && existsb (fun e => Nat.eqb (e_id e) i && negb (e_send e)) tbl) (seq 0 n).
